@@ -1760,6 +1760,101 @@ def stream_orand_contractions(ctx):
                 ctx.case(nontrivial_key=("orand", idx, route))
 
 
+def stream_number_contractions(ctx):
+    """Contractions ALL of whose operands are Numbers — drawn from {unit of ⊗, zero of ⊕, ordinary}, all-unit
+    tuples included — with reduced Variables that no operand mentions (the pending reduction contributes the
+    multiplicity |i| / log|i|).  Built directly and reached by substituting the values into free real parameters;
+    eager, normalize, lazy + apply_optimizer.  (Number operands only: funsor evaluates these correctly; a Tensor
+    operand next to an absent reduced variable is the region of KF-contraction-absent-var.)"""
+    rng = ctx.rng
+    reqs, meta = [], []
+    n = 60 if ctx.tier == "quick" else 400
+    for _ in range(n):
+        srname = rng.choice(["add-mul", "logaddexp-add", "max-add", "min-add", "max-mul"])
+        sum_op, prod_op, wire_sr, kind, twin = SR[srname]
+        zero, one = units(srname)
+        pool = [one, one, one, zero, 2.0, 3.0] if srname != "max-mul" else [one, one, one, 0.0, 2.0, 3.0]
+        k = rng.choice([1, 2, 2, 3])
+        vals = [rng.choice(pool) for _ in range(k)] if rng.random() < 0.6 else [one] * k
+        nv = rng.choice([1, 1, 2])
+        vs = [("i", rng.choice([2, 3, 4])), ("j", rng.choice([2, 3]))][:nv]
+        rv = frozenset(Variable(nm, Bint[sz]) for nm, sz in vs)
+        mult = int(np.prod([sz for _, sz in vs]))
+        # python oracle in implementation space
+        if srname == "add-mul":
+            want = mult * float(np.prod(vals))
+        elif srname == "logaddexp-add":
+            want = math.log(mult) + sum(vals)
+        elif srname == "max-mul":
+            want = float(np.prod(vals))
+        else:
+            want = sum(vals)
+        terms = [Number(v) for v in vals]
+        params = [Variable(f"p{q}", Real) for q in range(k)]
+        bind = {f"p{q}": vals[q] for q in range(k)}
+        routes = {}
+
+        def mk(ts):
+            if len(ts) == 1:
+                return Contraction(sum_op, ops.null, rv, ts[0])
+            return Contraction(sum_op, prod_op, rv, *ts)
+        try:
+            routes["eager"] = mk(terms)
+            with lazy:
+                x = mk(terms)
+            routes["optimizer"] = apply_optimizer(x)
+            with normalize:
+                d = mk(terms)
+            routes["normalize-direct"] = reinterpret(d)
+            with reflect:
+                t2 = mk(params)
+            with normalize:
+                d2 = t2(**bind)
+            routes["subs-normalize"] = reinterpret(d2)
+            routes["subs-optimizer"] = apply_optimizer(t2(**bind))
+            with lazy:
+                l2 = t2(**bind)
+            routes["subs-lazy-optimizer"] = apply_optimizer(l2)
+        except DECLINE as e:
+            ctx.count(f"numcontr:declined:{type(e).__name__}")
+        ctx.count("numcontr:all-units" if all(v == one for v in vals) else "numcontr:mixed")
+        for route, r in routes.items():
+            ctx.count(f"numcontr:{route}")
+            if not isinstance(r, (Tensor, Number)):
+                ctx.count(f"numcontr:lazy-result:{srname}")      # a decline (no eager rule), not a value
+                continue
+            ok = not r.inputs
+            if ok:
+                got = float(np.asarray(r.data))
+                ok = (got == want) or (not math.isinf(want) and abs(got - want) <= 1e-9 * max(1.0, abs(want)))
+            else:
+                got = str(r)[:80]
+            if not ok:
+                py = (PY_HEADER + f"terms = [Number(v) for v in {vals!r}]\n".replace("inf", "math.inf")
+                      + "rv = frozenset([" + ", ".join(f"Variable({nm!r}, Bint[{sz}])" for nm, sz in vs) + "])\n"
+                      + f"SUM, PROD = ops.{sum_op.__name__}, ops.{prod_op.__name__}\n"
+                      + "with lazy:\n    x = Contraction(SUM, PROD, rv, *terms) if len(terms) > 1 else Contraction(SUM, ops.null, rv, terms[0])\n"
+                      + "with normalize:\n    n = reinterpret(x)\nr1 = reinterpret(n)\nr2 = apply_optimizer(x)\nprint(r1, r2)\n"
+                      + f"want = {want!r}\n".replace("inf", "math.inf")
+                      + "FAILS = not (np.isclose(float(r1.data), want, equal_nan=True) and np.isclose(float(r2.data), want, equal_nan=True))\n")
+                ctx.fail("input", f"C08.number-contraction-{route}", witness=dict(semiring=srname, operands=[str(v) for v in vals],
+                         reduced=vs, route=route), expected=str(want), got=str(got), python=py)
+            else:
+                ctx.case(nontrivial_key=("numcontr", srname, tuple(vals), tuple(vs), route))
+        # Lean denote of the lazy contraction (exact semirings): the multiplicity is the specification's too
+        if kind != "log" and "optimizer" in routes:
+            try:
+                reqs.append(f"C08 denote {sx(ser.to_wire(x))} () ()")
+                meta.append((srname, vals, vs, want))
+            except ser.Unsupported:
+                pass
+    for (srname, vals, vs, want), ans in zip(meta, ctx.driver.ask(reqs) if reqs else []):
+        mv = model_values(ans)
+        ctx.count("numcontr:lean-denote")
+        if mv is None or not same_num(mv[0], exact(np.float64(want))):
+            ctx.infra_errors.append(f"number-contraction oracle and Lean denote disagree: {srname} {vals} {vs}: {mv} vs {want}")
+
+
 # ------------------------------------------------------------------------------------------------
 # entry points
 # ------------------------------------------------------------------------------------------------
@@ -1780,6 +1875,7 @@ def correspond(ctx):
     stream_absent_var(ctx)
     stream_einsum(ctx)
     stream_orand_contractions(ctx)
+    stream_number_contractions(ctx)
     ctx.assumptions.append("(logaddexp, add) is compared through exp with rtol 1e-9 against the (add, mul) twin in Lean; "
                            "opt_einsum.contract and numpy's einsum are trusted primitives (modelled by ⨁⨂)")
 
